@@ -226,6 +226,8 @@ structure Cfg where
   /-- a `Skipper` is configured that skips exactly the requests carrying a non-empty first
       `X-Skip` header value (the harness's Skipper); `false` = `DefaultSkipper` (never skips) -/
   skipper : Bool := false
+  /-- `ContextKey` after the default ("" ↦ "csrf"): the key of `c.Set(key, token)` -/
+  contextKey : Str := [99, 115, 114, 102]
 deriving DecidableEq, Repr
 
 /-- status of the response to a request rejected with `s`, through the configured ErrorHandler -/
@@ -404,6 +406,46 @@ def serveStack : List Mw → Req → List Nat → StackOut
     | .served (.rejected st) => .rejected st
     | .served (.passed sc ctx) => (serveStack rest r (restAfter c r s)).push (.csrf sc ctx (cookieAttrs c))
 
+/-! ## what the handler finds in the context (round 5)
+
+Every CSRF instance does `c.Set(config.ContextKey, token)` and never READS the context.  When
+two instances on one request path share a ContextKey (both left at the default "csrf") the
+innermost one owns it: the handler finds the token of the last instance that published under
+the key.  A middleware registered before CSRF may have put anything under the key (`init`). -/
+
+/-- the value under `key` when the handler runs: `cur` is what was there before the stack -/
+def ctxOf (key : Str) : List (Mw × Pub) → Option Str → Option Str
+  | [], cur => cur
+  | (.csrf c, .csrf _ ctx _) :: rest, cur => ctxOf key rest (if c.contextKey = key then some ctx else cur)
+  | _ :: rest, cur => ctxOf key rest cur
+
+/-- what the harness observes for one middleware of the stack after a passed request -/
+inductive ViewItem where
+  | rid (id : Str)
+  /-- a CSRF instance: its Set-Cookie (value + attributes; `none` = no Set-Cookie with its name)
+      and `c.Get(ContextKey)` as the handler finds it -/
+  | csrf (setCookie : Option (Str × CookieAttrs)) (ctx : Option Str)
+deriving DecidableEq, Repr
+
+/-- the context before the stack: nothing, or one preset pair -/
+def initCtx (init : Option (Str × Str)) (key : Str) : Option Str :=
+  match init with
+  | some (k, v) => if k = key then some v else none
+  | none => none
+
+def viewItems (all : List (Mw × Pub)) (init : Option (Str × Str)) : List (Mw × Pub) → List ViewItem
+  | [] => []
+  | (.csrf c, .csrf sc _ a) :: rest =>
+    .csrf (some (sc, a)) (ctxOf c.contextKey all (initCtx init c.contextKey)) :: viewItems all init rest
+  | (.csrf c, _) :: rest =>
+    .csrf none (ctxOf c.contextKey all (initCtx init c.contextKey)) :: viewItems all init rest
+  | (.requestID, .rid id) :: rest => .rid id :: viewItems all init rest
+  | (.requestID, _) :: rest => .rid [] :: viewItems all init rest
+
+/-- the observation of a passed request: per middleware, in stack order -/
+def handlerView (ms : List Mw) (pubs : List Pub) (init : Option (Str × Str)) : List ViewItem :=
+  viewItems (ms.zip pubs) init (ms.zip pubs)
+
 /-! ## wire -/
 open Wire
 
@@ -420,12 +462,13 @@ structure RawCfg where
   cookieHTTPOnly : Bool := false
   cookieSameSite : Nat := 0
   skipper : Bool := false
+  contextKey : Str := []
 deriving Repr
 
 /-- `DefaultCSRFConfig`: what `CSRF()` hands to `CSRFWithConfig` -/
 def defaultRaw : RawCfg :=
   { tokenLength := 32, lookup := lit "header:X-CSRF-Token", cookieName := lit "_csrf", errorHandler := 0,
-    cookieMaxAge := 86400, cookieSameSite := 1 }
+    cookieMaxAge := 86400, cookieSameSite := 1, contextKey := lit "csrf" }
 
 /-- `CSRFWithConfig` defaults; `none` = `CreateExtractors` failed (constructor panics) -/
 def mkCfg (rc : RawCfg) : Option Cfg :=
@@ -443,7 +486,8 @@ def mkCfg (rc : RawCfg) : Option Cfg :=
            cookieSecure := rc.cookieSecure || rc.cookieSameSite == 4
            cookieHTTPOnly := rc.cookieHTTPOnly
            cookieSameSite := rc.cookieSameSite
-           skipper := rc.skipper }
+           skipper := rc.skipper
+           contextKey := if rc.contextKey = [] then lit "csrf" else rc.contextKey }
 
 def pPair : P (Str × Str) := do
   let k ← bytes
@@ -470,10 +514,10 @@ def pMw : P (Option RawCfg) := do
   | 0 => do
     let n ← nat; let l ← bytes; let cn ← bytes; let eh ← nat
     let path ← bytes; let dom ← bytes; let age ← nat
-    let sec ← bool; let ho ← bool; let ss ← nat; let sk ← bool
+    let sec ← bool; let ho ← bool; let ss ← nat; let sk ← bool; let ck ← bytes
     pure (some { tokenLength := n, lookup := l, cookieName := cn, errorHandler := eh, cookiePath := path,
                  cookieDomain := dom, cookieMaxAge := age, cookieSecure := sec, cookieHTTPOnly := ho,
-                 cookieSameSite := ss, skipper := sk })
+                 cookieSameSite := ss, skipper := sk, contextKey := ck })
   | _ => failure
 
 /-- construct the stack; `none` = some constructor panics -/
@@ -485,16 +529,20 @@ def mkStack : List (Option RawCfg) → Option (List Mw)
     | some c, some ms => some (.csrf c :: ms)
     | _, _ => none
 
-def encPub : Pub → List String
-  | .skipped => ["k"]
-  | .rid id => ["r", encBytes id]
-  | .csrf sc ctx a => ["c", encBytes sc, encBytes ctx, encBytes a.path, encBytes a.domain, toString a.maxAge,
-      encBool a.secure, encBool a.httpOnly, toString a.sameSite]
+def encOptBytes : Option Str → String
+  | none => "<none>"
+  | some v => encBytes v
 
-def encOut : StackOut → List String
+def encItem : ViewItem → List String
+  | .rid id => ["r", encBytes id]
+  | .csrf (some (sc, a)) ctx => ["c", encBytes sc, encOptBytes ctx, encBytes a.path, encBytes a.domain, toString a.maxAge,
+      encBool a.secure, encBool a.httpOnly, toString a.sameSite]
+  | .csrf none ctx => ["c", "<none>", encOptBytes ctx, "-", "-", "-", "-", "-", "-"]
+
+def encOut (ms : List Mw) (init : Option (Str × Str)) : StackOut → List String
   | .panic => ["2"]
   | .rejected s => ["0", toString s]
-  | .passed ps => "1" :: encList encPub ps
+  | .passed ps => "1" :: encList encItem (handlerView ms ps init)
 
 /-- what the public `CreateExtractors(lookup)` returns for the configured string as it is:
     `x<number of extractors>` or `xerr` -/
@@ -503,18 +551,20 @@ def encExtractors (lookup : Str) : String :=
   | none => "xerr"
   | some es => "x" ++ toString es.length
 
-/-- line: `rawLookup nMw mw* n (method cookies headers query form params multipart rnd)*`
-    → `x… cpanic` | `x… n (2 | 0 status | 1 k pub*)*` -/
+/-- line: `rawLookup preset? nMw mw* n (method cookies headers query form params multipart rnd)*`
+    → `x… cpanic` | `x… n (2 | 0 status | 1 k item*)*`; `preset?` = `0` | `1 key value`: what a
+    middleware registered before the stack put into the context -/
 def runLine (line : String) : String :=
   match parseLine (do
       let raw ← bytes
+      let init ← opt pPair
       let ms ← list pMw
       let rs ← list pReq
-      pure (raw, ms, rs)) line with
+      pure (raw, init, ms, rs)) line with
   | none => "bad-op"
-  | some (raw, ms, rs) =>
+  | some (raw, init, ms, rs) =>
     match mkStack ms with
     | none => encExtractors raw ++ " cpanic"
-    | some st => encExtractors raw ++ " " ++ render (encList (fun r => encOut (serveStack st r r.rnd)) rs)
+    | some st => encExtractors raw ++ " " ++ render (encList (fun r => encOut st init (serveStack st r r.rnd)) rs)
 
 end C12
